@@ -1024,3 +1024,191 @@ def r9(cx):
 
 # --- explanation addendum (generated catalogue in DESIGN.md reads RS.explanation)
 RS.explanation += ' Added later: Config::start restores the signal mask on every exit after the fork (R8); a pipeline member that cannot be started leaves no pipe descriptor in the parent (R9).'
+
+
+# ---------------------------------------------------------------- added after wave-3 seeded changes
+FD_TY = 'yash_env::io::Fd'
+PIPE_PATS = ['*::Pipe::pipe']
+CLOSE_PATS = ['*::Close::close']
+R11_OWNED_ELSEWHERE = {
+    # pipe() users whose descriptors live in a struct field and are decided by their own rule
+    'yash_semantics::command::pipeline::PipeSet::shift': 'C08.R9 / C09.R3',
+}
+R11_THROUGH = Q.PROPAGATING_CALLS + Q.AWAIT_CALLS
+
+
+def _fd_comps(body, seeds):
+    """K-RES for a pair of descriptors: local -> subset of {0, 1} = which end(s) of the pipe the local's value is
+    (derived from). `seeds` = {local: comps}. A tuple-field projection `.0` / `.1` of type Fd on a value holding both
+    ends selects the end."""
+    comp = {l: set(c) for l, c in seeds.items()}
+
+    def of_place(p):
+        base = comp.get(p['l'])
+        if not base:
+            return set()
+        if len(base) > 1:
+            for e in p.get('p') or []:
+                if isinstance(e, dict) and 'f' in e and 'adt' not in e and e.get('ty') == FD_TY and e['f'] in ('0', '1'):
+                    return {int(e['f'])} & base
+        return set(base)
+
+    def of_operand(o):
+        p = Q.operand_place(o)
+        return of_place(p) if p is not None else set()
+
+    changed = True
+    while changed:
+        changed = False
+        for b, j, s in body.stmts():
+            if s['k'] != 'assign':
+                continue
+            new = set()
+            for p in Q.rvalue_places(s['rv']):
+                new |= of_place(p)
+            l = s['lhs']['l']
+            if l in seeds or not new <= {0, 1}:
+                continue
+            if not new <= comp.get(l, set()):
+                comp.setdefault(l, set()).update(new)
+                changed = True
+        for b, t in body.calls():
+            if not Q.callee_is(t, R11_THROUGH):
+                continue
+            new = set()
+            for a in t['a']:
+                new |= of_operand(a)
+            l = t['dest']['l']
+            if l in seeds:
+                continue
+            if not new <= comp.get(l, set()):
+                comp.setdefault(l, set()).update(new)
+                changed = True
+    return comp, of_operand
+
+
+def _param_locals(F, fn, idx):
+    """(main body, locals of the main body that hold parameter number `idx` (0-based) of fn on entry) - for an async fn
+    the parameter is a captured variable of the coroutine; None if it cannot be followed."""
+    outer = F.bodies.get(fn)
+    if outer is None:
+        return None
+    try:
+        main = F.main_body(fn)
+    except Exception:
+        return None
+    if main is outer:
+        return main, {idx + 1}
+    ks = set()
+    for b, j, s in outer.stmts():
+        if s['k'] == 'assign' and s['rv']['k'] == 'agg' and s['rv'].get('ak') == 'coroutine' and s['rv'].get('def') == main.fn:
+            for k, o in enumerate(s['rv']['ops']):
+                if Q.operand_local(o) == idx + 1 and not (Q.operand_place(o) or {}).get('p'):
+                    ks.add(str(k))
+    if not ks:
+        return None
+    ls = set()
+    for b, j, s in main.stmts():
+        if s['k'] == 'assign' and s['rv']['k'] == 'use' and not s['lhs'].get('p'):
+            p = Q.operand_place(s['rv']['o'])
+            if p is not None and p['l'] == 1:
+                fs = [e for e in p.get('p') or [] if isinstance(e, dict) and 'f' in e]
+                if len(fs) == 1 and fs[0]['f'] in ks and fs[0].get('adt') == main.fn:
+                    ls.add(s['lhs']['l'])
+    return (main, ls) if ls else None
+
+
+def _fd_release_blocks(F, body, comp, of_operand, c, depth, memo, notes):
+    """Blocks of `body` where end `c` of the pipe is closed: Close::close(.., fd), or a call of a function with a body
+    that closes the corresponding parameter on every one of its exits (decided recursively; an async callee must be
+    awaited here)."""
+    du = Q.DefUse(body)
+    rel = set()
+    for b, t in body.calls():
+        hits = [i for i, a in enumerate(t['a']) if of_operand(a) == {c}]
+        if not hits:
+            continue
+        if Q.callee_is(t, CLOSE_PATS):
+            rel.add(b)
+            notes.append('%s: close at %s' % (body.fn, body.loc(t)))
+            continue
+        callee = t['f'].get('def')
+        if callee is None or callee not in F.bodies or depth <= 0:
+            continue
+        for i in hits:
+            if not (i < len(t.get('at') or []) and t['at'][i] == FD_TY):
+                continue
+            if _param_closed_on_all_exits(F, callee, i, depth - 1, memo, notes) is None:
+                if (F.fns.get(callee) or {}).get('async') and await_done(F, body, du, t) is None:
+                    continue
+                rel.add(b)
+                notes.append('%s: handed to %s (closes its parameter #%d on every exit) at %s' % (body.fn, callee, i, body.loc(t)))
+    return rel
+
+
+def _param_closed_on_all_exits(F, fn, idx, depth, memo, notes):
+    """None if fn closes the descriptor it receives as parameter `idx` on every path to a return, else a witness
+    (body, path) (path None = the parameter could not be followed)."""
+    key = (fn, idx)
+    if key in memo:
+        return memo[key]
+    memo[key] = ('rec', None)          # recursion: not a release
+    pl = _param_locals(F, fn, idx)
+    if pl is None:
+        memo[key] = (None, None)
+        return memo[key]
+    main, ls = pl
+    comp, of_operand = _fd_comps(main, {l: {0} for l in ls})
+    rel = _fd_release_blocks(F, main, comp, of_operand, 0, depth, memo, notes)
+    p = Q.must_pass(main, [0], rel)
+    memo[key] = None if p is None else (main, p)
+    return memo[key]
+
+
+@RS.rule('C08.R11', 'K-RES', 'a command substitution (any holder of a fresh pipe() pair outside the pipeline code) leaves neither end of its '
+         'pipe open in the parent: on every exit after a successful pipe() each end has been closed, here or in a function it was handed to '
+         '- including the exit taken when the subshell cannot be started')
+def r11(cx):
+    F = cx.F
+    sites = [(b, t) for b, i, t in F.callers_of(lambda names, t: any(Q.name_matches(n, p) for n in names for p in PIPE_PATS))
+             if b.root.startswith('yash_semantics::') or b.root.startswith('yash_builtin::')]
+    MOD = 'yash_semantics::expansion::initial::command_subst::'
+    cx.require(any(b.root.startswith(MOD) for b, t in sites), 'no pipe() call in the command substitution module %s' % MOD)
+    for r in R11_OWNED_ELSEWHERE:
+        F.logical(r)
+    n = 0
+    for body, t in sites:
+        if body.root in R11_OWNED_ELSEWHERE:
+            continue
+        n += 1
+        cx.fn(body.fn)
+        pb = [b for b, tt in body.calls() if tt is t][0]
+        du = Q.DefUse(body)
+        comp, of_operand = _fd_comps(body, {t['dest']['l']: {0, 1}})
+        # edges on which there is no pipe (Err of the pipe() result)
+        absent = set()
+        for u in body.live_blocks():
+            ec = Q.edge_condition(F, body, du, u)
+            if ec is None or ec[0]['k'] != 'discr' or not comp.get(ec[0]['pl']['l']):
+                continue
+            for tgt, labs in ec[1].items():
+                if labs and all(l[0] == 'variant' and l[1] in Q.ABSENT_VARIANTS for l in labs):
+                    absent.add((u, tgt))
+        # a wrapper that returns the pair hands it to its caller (the caller is then a site of its own: not supported yet)
+        out = (F.fns.get(body.root) or {}).get('output', '')
+        cx.require(FD_TY not in out, '%s returns the descriptors of the pipe to its caller: follow the caller in C08.R11' % body.root)
+        memo = {}
+        for c, end in ((0, 'read'), (1, 'write')):
+            notes = []
+            rel = _fd_release_blocks(F, body, comp, of_operand, c, 3, memo, notes)
+            cx.site('%s: pipe() at %s, %s end released at: %s' % (body.fn, body.loc(t), end, '; '.join(notes) or 'nowhere'))
+            p = Q.must_pass(body, body.succ(pb), rel, removed_edges=absent)
+            if p is None:
+                continue
+            w = [x for x in p if x in set(Q.return_writers(body))]
+            lab, what = Q.exit_label(body, du, w[-1]) if w else ('bb', 'an exit')
+            cx.violation(body.root, 'pipe-end-left-open:%s|exit:%s' % (end, lab), 'after a successful pipe() the function can return through %s with the '
+                         '%s end of the pipe still open in the parent shell: when the subshell cannot be started (fork fails) every such '
+                         'command substitution leaves descriptors behind in the shell, inherited by every later child, until EMFILE'
+                         % (what, end), loc=body.loc(body.term(p[-1])), path=Q.render_path(body, p))
+    cx.floor(n, 1, 'holders of a pipe() pair')
